@@ -448,7 +448,8 @@ def stack_histories(draw):
     while kinds:
         k = kinds.pop()
         steps.append(['pop_' + k[0] if k[0] != 'n' else 'pop', k[1]])
-    return {'kind': 'stack', 'w': d.choice([64, 32]), 'steps': steps}
+    # tight: the stack is declared with exactly the capacity the history needs (the documented maximal capacity is usable)
+    return {'kind': 'stack', 'w': d.choice([64, 32]), 'steps': steps, 'tight': d.pct() < 40}
 
 
 @st.composite
@@ -469,7 +470,7 @@ def call_trees(draw):
             elif callees:
                 body.append(['fcall', d.choice(callees)])
         funs.append(body)
-    return {'kind': 'calls', 'w': d.choice([64, 32]), 'funs': funs}
+    return {'kind': 'calls', 'w': d.choice([64, 32]), 'funs': funs, 'tight': d.pct() < 40}
 
 
 def families(tier):
@@ -535,12 +536,15 @@ def run_stack(case):
             lines += ['hex.sp_add %d' % stp[1], 'hex.sp_sub %d' % stp[1]] if stp[1] > 1 else ['hex.sp_inc', 'hex.sp_dec']
         maxdepth = max(maxdepth, len(model_stack))
     lines += ['stl.get_sp sp1', "stl.output_char '.'", 'stl.loop', 'sp0:', 'hex.vec %d' % nptr(w), 'sp1:', 'hex.vec %d' % nptr(w)] + decl
+    tight = bool(case.get('tight')) and maxdepth >= 1
+    if tight:
+        lines[0] = 'stl.startup_and_init_all %d' % maxdepth
     src = '\n'.join(lines) + '\n'
     try:
         b = benchmod.Bench(src, w)
     except benchmod.BenchError as e:
         return Violation('c08:stack:does-not-assemble', {'error': str(e)[:500]}, [])
-    cl = ['family=stack', 'w=%d' % w]
+    cl = ['family=stack', 'w=%d' % w] + (['stack filled to its declared capacity'] if tight else [])
     m_ = b.fresh()
     r = b.run(m_)
     if r['cause'] != 'Looping' or r['out'] != b'.':
@@ -607,12 +611,32 @@ def run_calls(case):
         lines += pops[::-1]
         lines += ["stl.output_char 'a' + %d" % f, 'stl.return']
     lines += decl
+    memo = {}
+
+    def cells(f):
+        """maximal number of stack cells in use while f runs, above its own return address"""
+        if f not in memo:
+            cur = best = 0
+            for stp in funs[f]:
+                if stp[0] == 'local':
+                    cur += 1
+                    best = max(best, cur)
+                elif stp[0] in ('call', 'fcall'):
+                    best = max(best, cur + 1 + cells(stp[1]))
+                elif stp[0] == 'call_k':
+                    best = max(best, cur + stp[2] + 1 + cells(stp[1]))
+            memo[f] = best
+        return memo[f]
+    need = 1 + cells(0)
+    tight = bool(case.get('tight'))
+    if tight:
+        lines[0] = 'stl.startup_and_init_all %d' % need
     src = '\n'.join(lines) + '\n'
     try:
         b = benchmod.Bench(src, w)
     except benchmod.BenchError as e:
         return Violation('c08:calls:does-not-assemble', {'error': str(e)[:600]}, [])
-    cl = ['family=calls', 'w=%d' % w]
+    cl = ['family=calls', 'w=%d' % w] + (['stack filled to its declared capacity'] if tight else [])
     exp, md = expected(0, 1)
     if len(exp) > 3000:
         return Discard('call tree too large')
